@@ -167,3 +167,22 @@ Proof. exists 2, 100, 100. split; [lra|reflexivity]. Qed.
 
 Lemma base_linear s c : base s c == s * c.
 Proof. unfold base. lra. Qed.
+Lemma duccio_opt_acc ms e n a : fold_left (fun acc m => acc + term_opt e n m) ms a == a + duccio_opt ms e n.
+Proof.
+  unfold duccio_opt. revert a. induction ms as [|m ms IH]; intro a; cbn [fold_left].
+  - lra.
+  - rewrite IH. rewrite (IH (0 + term_opt e n m)). lra.
+Qed.
+
+(* a metric with an infinite target contributes nothing and leaves every other metric with ITS OWN strength *)
+Theorem duccio_opt_finite_part ms e n : duccio_opt ms e n == duccio (finite_part ms) e n.
+Proof.
+  induction ms as [|[[s c] [t|]] ms IH].
+  - reflexivity.
+  - unfold duccio_opt. cbn [fold_left]. rewrite duccio_opt_acc.
+    change (finite_part ((s, c, Some t) :: ms)) with ((s, c, t) :: finite_part ms).
+    rewrite duccio_cons, IH. cbn [term_opt term]. lra.
+  - unfold duccio_opt. cbn [fold_left]. rewrite duccio_opt_acc.
+    change (finite_part ((s, c, None) :: ms)) with (finite_part ms).
+    rewrite IH. cbn [term_opt]. lra.
+Qed.
